@@ -83,3 +83,59 @@ def outcome_key(o):
     if o[0] == "exc":
         return ("exc", o[1])
     return ("hang",)
+
+
+class SocketpairSession(Session):
+    """Same session over a real socket.socketpair(): the reference server runs in a
+    thread behind the peer end. Sanity check that the monitors agree on the real socket
+    class (no segmentation control here)."""
+
+    def _create_connection(self, addr, *a, **kw):
+        import threading
+        self.connect_count += 1
+        cli, peer = socket.socketpair()
+        self.peer = peer
+        srv = self.server
+        wire = self.wire
+        wire.log("connect", repr(addr).encode())
+
+        def flush():
+            if srv.out:
+                data = bytes(srv.out)
+                del srv.out[:]
+                peer.sendall(data)
+            if srv.eof:
+                try:
+                    peer.shutdown(socket.SHUT_WR)
+                except OSError:
+                    pass
+
+        def serve():
+            try:
+                srv.on_connect()
+                flush()
+                while True:
+                    data = peer.recv(65536)
+                    if not data:
+                        break
+                    wire.log("send", data)
+                    srv.feed(data, "plain")
+                    flush()
+            except OSError:
+                pass
+
+        self.thread = threading.Thread(target=serve, daemon=True)
+        self.thread.start()
+        self.sock = cli
+        return cli
+
+    def close(self):
+        for s in (getattr(self, "sock", None), getattr(self, "peer", None)):
+            try:
+                if s is not None:
+                    s.close()
+            except OSError:
+                pass
+        t = getattr(self, "thread", None)
+        if t is not None:
+            t.join(timeout=2)
